@@ -76,10 +76,21 @@ def cells(tier):
                             "sb": None, "backend": be})
             if tier == "quick":
                 sbs = list(dict.fromkeys([CART[d], sa] + _pick(R.SYSTEMS[d], R.sysname(sa), 2)))
+                if d == 4:
+                    # every spatial pairing (the angle predicates, deltaphi and deltaangle use the spatial part only), the
+                    # temporal type of the second operand alternating
+                    for k, s3 in enumerate(R.SYSTEMS[3]):
+                        sbs.append(s3 + (("t", "tau")[(k + len(R.sysname(sa))) % 2],))
+                    sbs = list(dict.fromkeys(sbs))
+                else:
+                    sbs = list(R.SYSTEMS[d])
             else:
                 sbs = R.SYSTEMS[d]
             for sb in sbs:
                 for be in BACKENDS:
+                    full = [CART[d], sa] + _pick(R.SYSTEMS[d], R.sysname(sa), 2)
+                    if tier == "quick" and be != "object-f64" and sb not in full:
+                        continue
                     if tier == "quick" and be in ("numpy", "awkward") and sb not in (CART[d], sa):
                         continue
                     out.append({"id": f"pairs|{d}{R.sysname(sa)}|{R.sysname(sb)}|{be}", "group": "pairs", "d": d,
